@@ -22,13 +22,13 @@ CHECKS = {
  'C06': dict(tech='stateless model checking of the implementation: deviation-bounded exhaustive schedule exploration with a linearizability oracle',
    text='Every schedule with at most 2 (quick) / 3 (thorough, capped at 4 M executions per program) deviations of eleven client programs (autocommit, RU/RC transactions, GC actor, shared keys) over inline.Open..Close, the same programs with the writer preference of sync.RWMutex modelled at one deviation less, three programs with a scheduling point after every Unlock as well (release points), and every pair of client threads over an 11-item alphabet (56 generated programs at 1 deviation quick; two initial states, GC actor, 2 deviations and two-against-one items thorough) and every triple over a 5-item alphabet (34 programs, 1 / 2 deviations); each recorded call/return history must be linearizable w.r.t. the sequential model; no deadlock, panic or leaked thread.', note=conc_note, ref='C06'),
  'C07': dict(tech='stateless model checking of the implementation: deviation-bounded exhaustive schedule exploration of concurrent commits with a linearizability oracle',
-   text='Every schedule with at most 2 (quick) / 3 (thorough) deviations of five programs in which snapshot transactions with intersecting write sets (and an autocommit / RC writer) commit concurrently, plus all 36 pairs of committing clients generated from an 8-item alphabet (RR/SER writers with intersecting and disjoint write sets, RC, autocommit and rolled-back writers) at 2 / 3 deviations; the history must be linearizable w.r.t. the model, in which the second committer fails and its writes vanish.', note=conc_note, ref='C07'),
+   text='Every schedule with at most 2 (quick) / 3 (thorough) deviations of six programs (one from a store that has seen transactions end) in which snapshot transactions with intersecting write sets (and an autocommit / RC writer) commit concurrently, plus all 36 pairs of committing clients generated from an 8-item alphabet (RR/SER writers with intersecting and disjoint write sets, RC, autocommit and rolled-back writers) at 2 / 3 deviations; the history must be linearizable w.r.t. the model, in which the second committer fails and its writes vanish.', note=conc_note, ref='C07'),
  'C08': dict(tech='stateless model checking of the implementation: deviation-bounded exhaustive schedule exploration of snapshot readers with a linearizability oracle',
    text='Every schedule with at most 2 (quick) / 3 (thorough, capped) deviations of seven programs with a snapshot reader against multi-key committers, autocommit writers, other Begins and GC, plus 30 generated pairs of snapshot readers and writers on two keys at 2 / 3 deviations; linearizability w.r.t. the model with Begin as snapshot point gives atomic visibility, stable re-reads and no lost version.', note=conc_note, ref='C08'),
  'C09': dict(tech='bounded exhaustive enumeration: every GC-free history re-run with the collector at every subset of positions, on the real stack against the model (differential)',
-   text='Every GC-free history to the stated depth with the collector inserted at every subset of positions (size <= 2 quick, all thorough); every read of every actor after every step equals the model, for which GC is the identity, and delivers its bytes; plus 1..12 (thorough 40) snapshot transactions of different ages ended in three orders with the collector after every end.', note=seq_note + ' The collector runs through the production path (virtual GC period, Sched, Send, worker, DeleteOld).', ref='C09'),
+   text='Every GC-free history to the stated depth with the collector inserted at every subset of positions (size <= 2 quick, all thorough); every read of every actor after every step equals the model, for which GC is the identity, and delivers its bytes; plus 1..12 (thorough 40) snapshot transactions of different ages ended in four orders with the collector and a further overwrite after every end.', note=seq_note + ' The collector runs through the production path (virtual GC period, Sched, Send, worker, DeleteOld).', ref='C09'),
  'C12': dict(tech='stateless model checking of the implementation: all interleavings of writer and storing side under a controlled scheduler',
-   text='Every interleaving (no bound) of the real async.readWriter writer and reader for every split of a short content into writes including empty ones, three reader buffer sizes, 32 KiB boundary splits and storing-side failures, plus five programs through inline.Open + Create with uneven and empty writes and a failing store (empty key) at 2 (quick) / 3 (thorough) deviations: Close returns, nil means exact concatenation, failure is reported with its class.', note='Interleavings at visible operations; the storing side is the io.Copy loop content.Store runs; inline Create end-to-end and the gRPC stream are covered sequentially by C01/C11.', ref='C12'),
+   text='Every interleaving (no bound) of the real async.readWriter writer and reader for every split of a short content into writes including empty ones, three reader buffer sizes, 32 KiB boundary splits and storing-side failures, large writes (64 KiB, 1 MiB thorough) through a writer that re-uses and overwrites its buffer, plus five programs through inline.Open + Create with uneven and empty writes and a failing store (empty key) at 2 (quick) / 3 (thorough) deviations: Close returns, nil means exact concatenation, failure is reported with its class.', note='Interleavings at visible operations; the storing side is the io.Copy loop content.Store runs; inline Create end-to-end and the gRPC stream are covered sequentially by C01/C11.', ref='C12'),
  'C13': dict(tech='bounded exhaustive enumeration of histories with operations through finished and unknown transaction handles on the real stack against the reference model',
    text='All histories to the stated depth in which every operation is also issued through handles of committed, failed and rolled-back transactions and through a never-issued transaction id (Commit and Rollback also naming the all-zero id and no id, issued raw), with RU and autocommit observers reading after every step and a restart at the end.', note=seq_note, ref='C13'),
  'C14': dict(tech='bounded exhaustive enumeration of fault-free histories with exact quiescence and a walk of the storage roots',
